@@ -63,6 +63,9 @@ type Config struct {
 	JSON         bool     `json:"json"`
 	MailGo       bool     `json:"mailGo"`
 	FoldPid      bool     `json:"foldPid"`
+	// Conc: the instance serves concurrent requests (C20): per-request harness bookkeeping that is
+	// not goroutine-safe is switched off and the shipped SMTP and log mailers are in the mail path.
+	Conc bool `json:"conc,omitempty"`
 }
 
 func (c Config) Has(m string) bool {
@@ -214,6 +217,58 @@ func (c *ClientStore) takeWrites() []WriteRec {
 	return w
 }
 
+// HeaderStore is a client-side (cookie-like) client-state store used by the
+// concurrent instances (C20): the whole state travels in a request header and
+// comes back in a response header. ReadState returns nil when the client sent
+// no state (the interface allows that), and WriteState builds the new state
+// from the state it is handed plus the events.
+type HeaderStore struct{ Name string }
+
+func (h HeaderStore) ReadState(r *http.Request) (authboss.ClientState, error) {
+	v := r.Header.Get("X-State-" + h.Name)
+	if v == "" {
+		return nil, nil
+	}
+	m := mapState{}
+	if err := json.Unmarshal([]byte(v), &m); err != nil {
+		return nil, err
+	}
+	return m, nil
+}
+
+func (h HeaderStore) WriteState(w http.ResponseWriter, st authboss.ClientState, evs []authboss.ClientStateEvent) error {
+	m := map[string]string{}
+	if ms, ok := st.(mapState); ok {
+		for k, v := range ms {
+			m[k] = v
+		}
+	}
+	for _, ev := range evs {
+		switch ev.Kind {
+		case authboss.ClientStateEventPut:
+			m[ev.Key] = ev.Value
+		case authboss.ClientStateEventDel:
+			delete(m, ev.Key)
+		case authboss.ClientStateEventDelAll:
+			keep := map[string]bool{}
+			for _, k := range strings.Split(ev.Key, ",") {
+				keep[k] = true
+			}
+			for k := range m {
+				if !keep[k] {
+					delete(m, k)
+				}
+			}
+		}
+	}
+	b, _ := json.Marshal(m)
+	w.Header().Set("X-Set-State-"+h.Name, string(b))
+	return nil
+}
+
+// Jar is one concurrent client's state for HeaderStore instances.
+type Jar struct{ Session, Cookie map[string]string }
+
 // ---- outboxes ---------------------------------------------------------------
 
 type Mail struct {
@@ -227,6 +282,7 @@ type Mailer struct {
 	mu    sync.Mutex
 	Box   []Mail
 	store *Store
+	Then  []authboss.Mailer // further mailers every message is handed to (errors ignored)
 }
 
 func (m *Mailer) Send(ctx context.Context, e authboss.Email) error {
@@ -260,7 +316,32 @@ func (m *Mailer) Send(ctx context.Context, e authboss.Email) error {
 	m.mu.Lock()
 	m.Box = append(m.Box, ml)
 	m.mu.Unlock()
+	for _, t := range m.Then {
+		_ = t.Send(ctx, e)
+	}
 	return nil
+}
+
+// TakeFor removes and returns the captured mails addressed to `to`.
+func (m *Mailer) TakeFor(to string) []Mail {
+	m.mu.Lock()
+	defer m.mu.Unlock()
+	var mine, rest []Mail
+	for _, x := range m.Box {
+		hit := false
+		for _, t := range x.To {
+			if t == to {
+				hit = true
+			}
+		}
+		if hit {
+			mine = append(mine, x)
+		} else {
+			rest = append(rest, x)
+		}
+	}
+	m.Box = rest
+	return mine
 }
 
 func (m *Mailer) take() []Mail {
@@ -464,6 +545,9 @@ func New(cfg Config) (*Instance, error) {
 	ab := authboss.New()
 	in.AB = ab
 	ab.Config.Core.ViewRenderer = renderer{store: in.Store, last: &in.lastPage}
+	if cfg.Conc {
+		ab.Config.Core.ViewRenderer = renderer{store: in.Store}
+	}
 	ab.Config.Core.MailRenderer = renderer{store: in.Store, mail: true}
 	defaults.SetCore(&ab.Config, cfg.JSON, false)
 	ab.Config.Core.BodyReader = otpReader{ab.Config.Core.BodyReader}
@@ -475,10 +559,18 @@ func New(cfg Config) (*Instance, error) {
 		ab.Config.Core.ErrorHandler = defaults.NewErrorHandler(logger)
 	}
 	ab.Config.Core.Mailer = in.Mail
+	if cfg.Conc {
+		// capture (for the clients' scripts) and then hand the message to the shipped mailers
+		in.Mail.Then = []authboss.Mailer{defaults.NewSMTPMailer("127.0.0.1:9", nil), defaults.NewLogMailer(in.Log)}
+	}
 	ab.Config.Core.Hasher = hasher{authboss.NewBCryptHasher(bcrypt.MinCost), in.Store}
 	ab.Config.Storage.Server = in.Store
 	ab.Config.Storage.SessionState = in.Sess
 	ab.Config.Storage.CookieState = in.Cook
+	if cfg.Conc {
+		ab.Config.Storage.SessionState = HeaderStore{"session"}
+		ab.Config.Storage.CookieState = HeaderStore{"cookie"}
+	}
 	ab.Config.Storage.SessionStateWhitelistKeys = append([]string(nil), cfg.Whitelist...)
 	ab.Config.Paths.Mount = "/auth"
 	ab.Config.Paths.RootURL = "http://site.test"
@@ -609,6 +701,15 @@ func New(cfg Config) (*Instance, error) {
 	}
 	if cfg.Has("remember") {
 		h = remember.Middleware(ab)(h)
+	}
+	if cfg.Conc {
+		// the recommended application stack: ModuleListMiddleware, then the application's own data
+		// injector (here: the name of the client the request belongs to) merged into the view data
+		inj := h
+		h = authboss.ModuleListMiddleware(ab)(http.HandlerFunc(func(w http.ResponseWriter, r *http.Request) {
+			authboss.MergeDataInRequest(&r, authboss.HTMLData{"current_client": r.Header.Get("X-Browser")})
+			inj.ServeHTTP(w, r)
+		}))
 	}
 	h = ab.LoadClientStateMiddleware(h)
 	// outermost: in-process OAuth2 HTTP client in the request context
@@ -807,6 +908,62 @@ func (in *Instance) Do(rq Req) (resp Resp) {
 	resp.SMSs = in.SMSOut.take()
 	resp.Log = in.Log.take()
 	return
+}
+
+// Serve is the goroutine-safe request path (C20): no per-request harness bookkeeping.
+func (in *Instance) Serve(jar *Jar, browser, method, path string, form map[string]string) (status int, location, body string, probe *ProbeResult, panicked string) {
+	var rd io.Reader
+	if method != "GET" && form != nil {
+		v := url.Values{}
+		for k, x := range form {
+			v.Set(k, x)
+		}
+		rd = strings.NewReader(v.Encode())
+	}
+	r, err := http.NewRequest(method, "http://site.test"+path, rd)
+	if err != nil {
+		return 0, "", "", nil, err.Error()
+	}
+	if rd != nil {
+		r.Header.Set("Content-Type", "application/x-www-form-urlencoded")
+	}
+	r.Header.Set("X-Browser", browser)
+	if len(jar.Session) > 0 {
+		b, _ := json.Marshal(jar.Session)
+		r.Header.Set("X-State-session", string(b))
+	}
+	if len(jar.Cookie) > 0 {
+		b, _ := json.Marshal(jar.Cookie)
+		r.Header.Set("X-State-cookie", string(b))
+	}
+	r.RemoteAddr = "10.0.0.1:1234"
+	root := r
+	r = r.WithContext(context.WithValue(r.Context(), rootKey{}, root))
+	w := httptest.NewRecorder()
+	func() {
+		defer func() {
+			if p := recover(); p != nil {
+				panicked = fmt.Sprint(p)
+			}
+		}()
+		in.Handler.ServeHTTP(w, r)
+	}()
+	in.probeMu.Lock()
+	if p, ok := in.probe[root]; ok {
+		probe = p
+		delete(in.probe, root)
+	}
+	in.probeMu.Unlock()
+	res := w.Result()
+	if v := res.Header.Get("X-Set-State-session"); v != "" {
+		jar.Session = map[string]string{}
+		json.Unmarshal([]byte(v), &jar.Session)
+	}
+	if v := res.Header.Get("X-Set-State-cookie"); v != "" {
+		jar.Cookie = map[string]string{}
+		json.Unmarshal([]byte(v), &jar.Cookie)
+	}
+	return w.Code, res.Header.Get("Location"), w.Body.String(), probe, panicked
 }
 
 // Tick lets d abstract ticks pass by shifting every stored instant back.
